@@ -145,7 +145,7 @@ def register_photometry(reg):
     ))
     reg.record('ProfileApertures', {'radii': ('seq', 'real'), 'xycen': ('tuple', 'real', 'real')})
     reg.add(Contract(
-        target=f'{PB}._circular_apertures', props=['C19'], kind='property',
+        target=f'{PB}._circular_apertures', props=['C19', 'C03'], kind='property',
         params={'self': 'ProfileApertures'},
         ensures=[('one-per-radius', 'len(result) == len(self.radii)'),
                  ('none-iff-radius-not-positive',
@@ -166,7 +166,7 @@ def register_photometry(reg):
         full = (f'{a}.x, {a}.y, {a}.r, id_(self.data), id_(self.error), id_(self.mask), '
                 f'code_(self.method), self.subpixels')
         reg.add(Contract(
-            target=f'{PB}._photometry', props=['C19'], kind='property', tag=meth,
+            target=f'{PB}._photometry', props=['C19', 'C03'], kind='property', tag=meth,
             params={'self': 'ProfilePhot@' + meth},
             ensures=[
                 ('one-entry-per-aperture',
